@@ -33,7 +33,9 @@ ASSUMPTIONS = C03.ASSUMPTIONS[:3] + [
     '(|V_bubble - V| < 1e-6) is outside the quantifier V in (0.02, 0.98) (Example C04_PV_lucky_guess_excluded)',
     'enthalpy / entropy clause: at least one volatile chemical present (the quantifier); without one VLE.__call__ stores P only (C04_PH_no_volatile)',
     'scaling clause: the solver oracles depend on the normalised composition only (orc_scaled)',
-    'iso-fugacity at the solver tolerance rather than at an exact fixed point: flexsolve.aitken contract, not proved here']
+    'iso-fugacity at the solver tolerance rather than at an exact fixed point: flexsolve.aitken contract, not proved here',
+    'kernel stand-in cases: where the rational model divides by an exact 0 and the float run (rounding residue) returns a value that is stable '
+    'under a 2^-30 perturbation of the input, the case is not compared (float rounding is not modelled)']
 TRUSTED = ['wrapper model coq/C03/Model.v hand-written from vle.py (as repaired by pending_fixes/C04_1..3)',
            'kernels: tr/C04_kernels.py (python ast -> Gallina, fail-closed subset) regenerates coq/C04/Gen_kernels.v from binary_phase_fraction.py / vle.py on every run; '
            'generated = hand-written is proved by reflexivity (C04_generated_kernels_agree); the stand-in correspondence runs the same functions against the code']
@@ -45,15 +47,119 @@ def gen_cases(rng, tier):
     n_stub, n_real, n_k = (170, 24, 60) if tier == 'quick' else (2500, 250, 600)
     cases = [C03.gen_vle_case(rng) for _ in range(n_stub)]
     cases += [C03.gen_real_case(rng) for _ in range(n_real)]
+    cases += [gen_inert_hs_case(rng) for _ in range(10 if tier == 'quick' else 120)]
     cases += [{'kind': 'rr2', 'z': [rng.choice(ZS), rng.choice(ZS)], 'K': [rng.choice(KS), rng.choice(KS)]} for _ in range(n_k)]
     cases += [gen_xpkg_case(rng) for _ in range(16 if tier == 'quick' else 120)]
     nh = (24, 16) if tier == 'quick' else (300, 100)
     cases += [C03.gen_vleh_case(rng, 'stub') for _ in range(nh[0])] + [C03.gen_vleh_case(rng, 'real') for _ in range(nh[1])]
+    cases += [gen_dom_case(rng) for _ in range(30 if tier == 'quick' else 150)]
     if os.environ.get('VERIF_PENDING'):
         cases += PENDING      # witnesses of defects whose fix (pending_fixes/) is not in /repo yet
     cases += [gen_iter_case(rng, 2) for _ in range(n_k)]
     cases += [gen_iter_case(rng, rng.choice([1, 3, 4])) for _ in range(n_k)]
     return cases
+
+# ---- the temperature domain of the bubble / dew point objects (equilibrium/domain.py) and what it does to a T,P flash
+DOM_IDS = ['Propane', 'Butane', 'Hexane', 'Octane', 'Ethanol', 'Water']
+DOM_MIX = [['Butane', 'Hexane', 'Octane'], ['Butane', 'Octane'], ['Propane', 'Hexane'], ['Propane', 'Butane', 'Octane'], ['Butane', 'Hexane'],
+           ['Propane', 'Ethanol', 'Water'], ['Hexane', 'Octane'], ['Butane', 'Water'], ['Butane'], ['Propane', 'Butane', 'Hexane', 'Octane', 'Ethanol']]
+_dom = {}
+def dom_env():
+    """a second chemical set with light members whose critical temperature (upper Psat limit) lies inside the property's
+    T range (propane 369.8 K, butane 425.1 K); ideal package; never installed as the session default"""
+    if not _dom:
+        e = C03.env(); tmo = e['tmo']
+        chems = tmo.Chemicals(DOM_IDS, cache=True)
+        _dom['chems'] = chems
+        _dom['ideal'] = tmo.Thermo(chems).ideal()
+    return _dom
+
+def gen_dom_case(rng, real=None):
+    if (rng.random() < 0.35) if real is None else not real:
+        # stand-in chemicals: only the Psat limits matter to vle_domain
+        n = rng.randint(1, 5)
+        tmins = [rng.choice([20., 85.5, 135.25, 178., 216.5, 273.125, 49.5, 50.]) for _ in range(n)]
+        tmaxs = [rng.choice([369.75, 425.125, 507.5, 568.75, 647., 1000., 1200.5, 999.5]) for _ in range(n)]
+        return {'kind': 'dom', 'real': False, 'tmins': tmins, 'tmaxs': tmaxs}
+    ids = rng.choice(DOM_MIX)
+    # little of the light members (keeps the bubble pressure below 1e6 Pa at 430-449 K), pressures mostly just below the bubble pressure
+    z = [rng.choice([0.125, 0.25, 0.5]) if i in ('Propane', 'Butane') else rng.choice([1., 2., 4.]) for i in ids]
+    return {'kind': 'dom', 'real': True, 'ids': ids, 'z': z, 'T': rng.choice([400., 430., 440., 445., 375., 390., 449.]),
+            'fP': rng.choice([0.75, 0.8125, 0.875, 0.9375, 0.96875, 0.5, 0.25, 1.0625, -0.0625])}
+
+def run_dom(case):
+    import types
+    from thermosteam.equilibrium.domain import vle_domain
+    if not case['real']:
+        chems = [types.SimpleNamespace(Psat=types.SimpleNamespace(Tmin=a, Tmax=b)) for a, b in zip(case['tmins'], case['tmaxs'])]
+        lo, hi = vle_domain(chems)
+        return {'tmins': case['tmins'], 'tmaxs': case['tmaxs'], 'dom': [float(lo), float(hi)]}
+    d = dom_env()
+    from thermosteam.equilibrium.bubble_point import BubblePoint
+    chems = [d['chems'][i] for i in case['ids']]
+    bp = BubblePoint(chems, d['ideal'])          # the object a VLE on these chemicals uses (memoised per chemicals / package)
+    lo, hi = vle_domain(chems)
+    return {'tmins': [float(c.Psat.Tmin) for c in chems], 'tmaxs': [float(c.Psat.Tmax) for c in chems], 'dom': [float(lo), float(hi)],
+            'bp': [float(bp.Tmin), float(bp.Tmax)]}
+
+def coq_dom(case, out):
+    ts = [f'(dom_check {qlist(out["tmins"])} {qlist(out["tmaxs"])} {q(out["dom"][0])} {q(out["dom"][1])})']
+    if 'bp' in out: ts.append(f'(dom_check {qlist(out["tmins"])} {qlist(out["tmaxs"])} {q(out["bp"][0])} {q(out["bp"][1])})')
+    return '(' + ' && '.join(ts) + ')'
+
+def oracle_dom(case):
+    """ideal package, T,P flash of light + heavy hydrocarbons (T possibly above the critical temperature of the lightest) against an
+    independent Raoult's-law Rachford-Rice solution with the same Psat(T)"""
+    if not case['real'] or len(case['ids']) < 2: return None
+    d = dom_env(); tmo = C03.env()['tmo']
+    chems = [d['chems'][i] for i in case['ids']]
+    T = case['T']
+    z = np.array(case['z'], float); F = z.sum(); zn = z / F
+    Ps = np.array([float(c.Psat(T)) for c in chems])
+    Pb = float((zn * Ps).sum()); Pd = 1. / float((zn / Ps).sum())
+    P = Pd + case['fP'] * (Pb - Pd)
+    if not 2e4 <= P <= 1e6: return None
+    s = tmo.Stream(None, T=300., P=101325., thermo=d['ideal'], **{i: float(x) for i, x in zip(case['ids'], z)})
+    try:
+        s.vle(T=T, P=P)
+    except Exception as ex:
+        return f'vle(TP) ideal package {case["ids"]} z={case["z"]} T={T} P={P:.1f}: raised {type(ex).__name__}: {ex}'
+    if s.T != T or s.P != P: return f'vle(TP) ideal package {case["ids"]}: specified T={T}, P={P} but the stream has T={s.T}, P={s.P}'
+    K = Ps / P
+    V = raoult_rr(zn, K)
+    v = F * zn * K * V / (1. + V * (K - 1.)) if 0. < V < 1. else (z * V)
+    got = np.array([float(s.imol['g', i]) for i in case['ids']])
+    if np.abs(got - v).max() > 1e-4 * max(1., F):
+        return (f'vle(TP) ideal package {case["ids"]} z={case["z"]} T={T} P={P:.1f} (Raoult bubble {Pb:.1f}, dew {Pd:.1f}; upper Psat limits '
+                f'{[round(float(c.Psat.Tmax), 1) for c in chems]}): vapour flows {got.round(6).tolist()} differ from the Raoult Rachford-Rice solution {np.round(v, 6).tolist()}')
+    return None
+
+def search_cases(rng, tier):
+    """extra inputs for the oracle when an obligation or the correspondence broke (not part of the correspondence)"""
+    return [gen_dom_case(rng, True) for _ in range(150)] + [gen_inert_hs_case(rng) for _ in range(60)]
+
+HS_MIX = [{'Water': 10., 'Ethanol': 5., 'Methanol': 3.}, {'Water': 30., 'Ethanol': 10.}, {'Ethanol': 8., 'Methanol': 8.}, {'Water': 20., 'Methanol': 5.}]
+def gen_inert_hs_case(rng):
+    """real solvers: an enthalpy / entropy specification on volatile chemicals WITH a small amount of non-condensable gas and / or
+    non-volatile solute, target values over the whole range incl. low and high vapour fractions -- the brackets of the T,H / T,S /
+    P,H / P,S searches are widened for such feeds (the gas keeps a vapour phase alive above the bubble pressure of the rest)"""
+    mix = dict(rng.choice(HS_MIX))
+    Fv = sum(mix.values())
+    w = rng.choice(['gas', 'gas', 'gas', 'solute', 'both'])
+    if w in ('gas', 'both'): mix[rng.choice(['N2', 'CO2'])] = Fv * rng.choice([0.0078125, 0.03125, 0.0625])
+    if w in ('solute', 'both'): mix[rng.choice(['Glucose', 'Salt_'])] = Fv * rng.choice([0.015625, 0.0625])
+    n = len(C03.IDS)
+    l = [0.] * n; g = [0.] * n
+    for k, v in mix.items():
+        (g if k in ('N2', 'CO2') and rng.random() < 0.7 else l)[C03.IDS.index(k)] = v
+    sk = rng.choice(['TS', 'TS', 'TH', 'TH', 'PH', 'PS'])
+    spec = {'T': rng.choice([345., 350., 360.])} if sk[0] == 'T' else {'P': rng.choice([101325., 60000., 202650.])}
+    fr = rng.choice([0.03125, 0.0625, 0.125, 0.25, 0.375, 0.5, 0.75, 0.9375])
+    gas = sum(v for k, v in mix.items() if k in ('N2', 'CO2')) / Fv
+    if sk[0] == 'T' and gas * 0.5 >= fr: fr = 0.125      # (root above twice the bubble pressure of the rest: witnesses C04:vle(TH/TS)-root-above-2Pbubble)
+    spec[sk[1]] = ['frac', fr]
+    return {'kind': 'vle', 'mode': 'real', 'phases': 'lg', 'l': l, 'g': g, 's': [0.] * n, 'spec': spec, 'sk': sk,
+            'T0': 298.15, 'P0': 101325., 'co': None, 'draws': []}
 
 CLS = {'DortmundActivityCoefficients': 1, 'IdealActivityCoefficients': 2, 'IdealFugacityCoefficients': 1,
        'MockPoyintingCorrectionFactors': 1}
@@ -213,7 +319,23 @@ def run_iter(case):
     finally:
         vm.np, vm.xy, vm.binary = saved
 
+def run_iter_checked(case):
+    """run_iter, plus an ill-conditioning probe: the same call with the composition guess moved by 2^-30 relative; a result that
+    moves by more than 1e-3 relative came out of a cancellation (an exact zero in rationals, a rounding residue in floats)"""
+    out = run_iter(case)
+    if out.get('w') is not None:
+        try:
+            o2 = run_iter(dict(case, x=[v * (1. + 2. ** -30) for v in case['x']]))
+        except Exception:
+            o2 = {'w': None}
+        if o2.get('w') is None or any(abs(a - b) > 1e-3 * max(1., abs(a)) for a, b in zip(out['w'], o2['w'])):
+            out['ill'] = True
+        else:
+            out['stable'] = True
+    return out
+
 def ill_conditioned(out):
+    if out.get('ill'): return True
     """a denominator that is an exact zero in rational arithmetic but a rounding residue in floats (result ~ 1e15):
     float rounding is not modelled, such cases are counted and not compared"""
     return out['w'] is not None and max(abs(v) for v in out['w']) > 1e9
@@ -227,12 +349,14 @@ def coq_iter(case, out):
     w = f'(mkwn {qlist(case["x"])} {q(case["V"])} {qlist(case["l"])})'
     exp = 'None' if out['w'] is None else f'(Some (mkwn {qlist(out["w"][:n])} {q(out["w"][n])} {qlist(out["w"][n + 1:])}))'
     tail = f'{w} {qlist(case["pcf"])} {q(350.)} {q(101325.)} {qlist(case["z"])}'
-    if n == 2:
-        return f'(itern_check (iter2n {fns} {tail}) {exp})'
-    return f'(itern_check (itern {fns} (fun _ _ _ _ _ => {q(case["Vret"])}) {tail} 0 0) {exp})'
+    run = f'(iter2n {fns} {tail})' if n == 2 else f'(itern {fns} (fun _ _ _ _ _ => {q(case["Vret"])}) {tail} 0 0)'
+    if out['w'] is not None and out.get('stable'):
+        return f'(res_zdiv {run} || itern_check {run} {exp})'
+    return f'(itern_check {run} {exp})'
 
 
 def run_impl(case):
+    if case['kind'] == 'dom': return run_dom(case)
     if case['kind'] == 'rr2':
         C03.env()
         from thermosteam.equilibrium import binary_phase_fraction as b
@@ -242,7 +366,7 @@ def run_impl(case):
         except (ZeroDivisionError, FloatingPointError):
             return {'V': None}
     if case['kind'] in ('it2', 'itn'):
-        return run_iter(case)
+        return run_iter_checked(case)
     if case['kind'] == 'xpkg':
         return run_xpkg(case)
     if case['kind'] == 'vleh':
@@ -250,6 +374,7 @@ def run_impl(case):
     return C03.run_vle(case)
 
 def coq_case(case, out):
+    if case['kind'] == 'dom': return coq_dom(case, out)
     if case['kind'] == 'xpkg':
         return coq_xpkg(case, out)
     if case['kind'] in ('it2', 'itn'):
@@ -269,6 +394,7 @@ def coq_show(case, out):
     return C03.coq_show(case, out) if case['kind'] == 'vle' else 'tt'
 
 def nontrivial(case, out):
+    if case['kind'] == 'dom': return len(set(out['tmaxs'])) >= 2 or len(set(out['tmins'])) >= 2
     if case['kind'] == 'vleh': return C03.nontrivial(case, out)
     if case['kind'] == 'xpkg': return len({o['bubble'][0] for o in out['steps']}) >= 2
     if case['kind'] == 'rr2': return out['V'] is not None
@@ -276,6 +402,7 @@ def nontrivial(case, out):
     return C03.nontrivial(case, out) or (out['init']['T'], out['init']['P']) != (out['final']['T'], out['final']['P'])
 
 def classify(case, out):
+    if case['kind'] == 'dom': return ['dom:' + ('database chemicals' if case['real'] else 'stand-in limits')]
     if case['kind'] == 'vleh': return C03.classify(case, out)
     if case['kind'] == 'xpkg': return ['xpkg:' + ''.join(s_['pkg'] for s_ in case['steps'])]
     if case['kind'] == 'rr2': return ['rr2:' + ('value' if out['V'] is not None else 'zero-denominator')]
@@ -333,7 +460,7 @@ def oracle_vleh(case):
         if 'V' in spec and not 0. <= spec['V'] <= 1.: continue
         kw = {kk: (np.array(v) if isinstance(v, list) else v) for kk, v in spec.items()}
         pre = {ph: C03.fl(r.to_array()) for ph, r in tuple(s.imol)}; T_pre, P_pre = float(s.T), float(s.P)
-        fresh = tmo.MultiStream(None, T=s.T, P=s.P, phases=case['phases'], thermo=e['thermo'])
+        fresh = tmo.MultiStream(None, T=s.T, P=s.P, phases=tuple(pre), thermo=e['thermo'])
         for ph, r in pre.items(): fresh.imol[ph] = np.array(r)
         try:
             s.vle(**kw)
@@ -373,6 +500,30 @@ def oracle_vleh(case):
                         f'(V={g / (g + l):.3f})')
     return None
 
+def _root_P(case, T, prop, want, P0):
+    """the pressure at which the equilibrium state of the case's material at T has H (S) = want: bisection over fresh T,P flashes"""
+    f = lambda P: (lambda x: None if x is None else getattr(x, prop) - want)(_flash(case, {'T': T, 'P': P}))
+    lo, hi = P0 / 4., P0 * 4.
+    flo, fhi = f(lo), f(hi)
+    if flo is None or fhi is None or flo * fhi > 0: return None
+    for _ in range(60):
+        mid = 0.5 * (lo + hi); fm = f(mid)
+        if fm is None: return None
+        if fm * flo > 0: lo, flo = mid, fm
+        else: hi = mid
+    return 0.5 * (lo + hi)
+
+def _bubble_P_condensable(case, T):
+    e = C03.env(); tmo = e['tmo']
+    ref = tmo.Stream(None, T=T, P=101325., thermo=e['thermo'])
+    for i in range(3):
+        x = sum(case[ph][i] for ph in 'lg')
+        if x > 0: ref.imol[C03.IDS[i]] = x
+    try:
+        return float(ref.bubble_point_at_T(T).P)
+    except Exception:
+        return None
+
 def spec_clauses(case, spec, sk, s):
     """the H / S / V clauses of the property for the result s of vle(**spec) on the material of case (flows case['l'], case['g']);
     None or a message"""
@@ -388,10 +539,21 @@ def spec_clauses(case, spec, sk, s):
         if abs(got - want) > 1e-5 * max(1., abs(want)) + 1e-5 * abs(s.F_mass):
             lo = _flash(case, {'T': s.T, 'P': s.P + 1.}); hi = _flash(case, {'T': s.T, 'P': s.P - 1.})
             vals = [getattr(x, prop) for x in (lo, hi) if x is not None]
-            if len(vals) < 2 or not (min(vals) - 1e-6 * abs(want) <= want <= max(vals) + 1e-6 * abs(want)):
+            within = len(vals) == 2 and (min(vals) - 1e-6 * abs(want) <= want <= max(vals) + 1e-6 * abs(want)
+                                         or abs(got - want) <= min(1e-3 * abs(want), max(abs(v - got) for v in vals)))     # a small miss, smaller than what 1 Pa does
+            if not within:
                 # a stream that is itself an equilibrium state at its (T, P) but at the wrong root: the pressure search stopped early
                 self_consistent = len(vals) == 2 and min(vals) - 1e-6 * abs(got) <= got <= max(vals) + 1e-6 * abs(got)
                 head = f'vle({sk}) pressure search stopped off the root' if self_consistent else f'vle({sk})'
+                if self_consistent:
+                    Pr = _root_P(case, s.T, prop, want, s.P)
+                    if Pr is not None and abs(Pr - s.P) > 0.02 * Pr:
+                        head = f'vle({sk}) pressure search returned a pressure far from the root (the specified {prop} is attained at P={Pr:.1f})'
+                        Pb0 = _bubble_P_condensable(case, s.T)
+                        if Pb0 is not None and Pr > 2. * Pb0 * 0.999 and any(case[ph][i] for ph in 'lg' for i in (3, 4)):
+                            # a baseline limitation with its own key: the search bracket ends at twice the bubble pressure of the condensable part
+                            head = (f'vle({sk}) root above twice the bubble pressure of the condensable part (non-condensable gas present; bubble pressure '
+                                    f'without it {Pb0:.1f}; the specified {prop} is attained at P={Pr:.1f})')
                 return (f'{head}: specified {prop}={want} but the stream has {prop}={got} (T={s.T}, P={s.P}); the equilibrium values at P-1 Pa / P+1 Pa '
                         f'({vals}) do not bracket the specification')
     if sk == 'PS' and has_volatile and small_inerts and abs(s.S - spec['S']) > 1e-3 * max(1., abs(spec['S'])) + 1e-5 * abs(s.F_mass):
@@ -417,6 +579,7 @@ def oracle(case):
     a specified H is reproduced; a specified V is met; multiplying the feed (and H, S) by a constant multiplies the
     products by it; with the ideal package the T,P split equals an independent Raoult's-law Rachford-Rice solution."""
     if case['kind'] == 'xpkg': return oracle_xpkg(case)
+    if case['kind'] == 'dom': return oracle_dom(case)
     if case['kind'] == 'vleh': return oracle_vleh(case)
     if case['kind'] != 'vle': return None
     s = C03.build_stream(case)
@@ -471,6 +634,8 @@ def finding_key(case, msg):
     result that is not even an equilibrium state at its own (T, P) gets another key, so that a regression is not masked"""
     head = msg.split(':')[0]
     if 'pressure search stopped off the root' in head: return 'C04:' + head.split(' ')[0]
+    if 'far from the root' in head: return 'C04:' + head.split(' ')[0] + '-far-from-root'
+    if 'root above twice the bubble pressure' in head: return 'C04:' + head.split(' ')[0] + '-root-above-2Pbubble'
     if head in ('vle(TS)', 'vle(TH)'): return 'C04:' + head + '-not-reproduced'
     return 'C04:' + head
 
@@ -491,5 +656,12 @@ _ALL_WITNESSES = [
     {'key': 'C04:vle(TS)',
      'case': {'kind': 'vle', 'mode': 'real', 'phases': 'lg', 'l': [12.5, 4.0, 8.0, 0., 0., 0., 0.], 'g': [0.25, 3.0, 0., 0., 0., 0., 0.], 's': [0.] * 7,
               'spec': {'T': 350.5, 'S': ['frac', 0.5]}, 'sk': 'TS', 'T0': 298.15, 'P0': 101325., 'co': None, 'draws': []}},
+    # T,H / T,S with a non-condensable gas and a target next to the all-liquid value: the root lies above 2 x P_bubble(rest), the end of the bracket
+    {'key': 'C04:vle(TH)-root-above-2Pbubble',
+     'case': {'kind': 'vle', 'mode': 'real', 'phases': 'lg', 'l': [0., 8., 8., 0., 0., 0., 0.], 'g': [0., 0., 0., 1., 0., 0., 0.], 's': [0.] * 7,
+              'spec': {'T': 345., 'H': ['frac', 0.03125]}, 'sk': 'TH', 'T0': 298.15, 'P0': 101325., 'co': None, 'draws': []}},
+    {'key': 'C04:vle(TS)-root-above-2Pbubble',
+     'case': {'kind': 'vle', 'mode': 'real', 'phases': 'lg', 'l': [30., 10., 0., 0., 0., 0., 0.], 'g': [0., 0., 0., 2.5, 0., 0., 0.], 's': [0.] * 7,
+              'spec': {'T': 345., 'S': ['frac', 0.03125]}, 'sk': 'TS', 'T0': 298.15, 'P0': 101325., 'co': None, 'draws': []}},
 ]
 WITNESSES = [w for w in _ALL_WITNESSES if (ID, w['key']) in _vf.load_known() or os.environ.get('VERIF_PENDING')]
